@@ -86,3 +86,217 @@ def build_model(cells, names=None, default_sheet='Sheet1', build_code=True):
     if build_code:
         model.build_code()
     return model
+
+
+# --------------------------------------------------------------------------
+# acyclic model generator (C04, C05, C12, C13)
+# --------------------------------------------------------------------------
+
+SHEETS = ['Sheet1', 'S2', 'Data']
+
+NUMS = [0, 1, 2, 3, 7, -4, 10, 100, 0.5, 2.25, -1.5, 1e-7, 12345.678]
+EXTREME = [1e308, -0.0, 5e-324, 2 ** 70, -1e308]
+TEXTS = ['abc', 'Hello', 'x', 'héllo wörld', '12', '3.5', 'TRUE',
+         'a"b', "it's", '日本']
+DATES = [datetime.datetime(2020, 3, 15), datetime.datetime(1999, 12, 31, 12),
+         datetime.datetime(1900, 3, 1)]
+
+# templates: {a} {b} {c} single-cell operands, {R} a range, {n} a defined name
+T_SCALAR = [
+    '{a}+{b}', '{a}-{b}', '{a}*{b}', '{a}/{b}', '{a}^2', '-{a}', '{a}*50%',
+    '{a}&{b}', '{a}={b}', '{a}<{b}', '{a}>={b}', '{a}<>{b}', '{a}+{a}',
+    '({a}+{b})*{c}', '{a}+{b}*{c}', '{a}-{b}-{c}',
+    'IF({a}>{b},{a},{b})', 'IF({a},{b},{c})', 'AND({a},{b})', 'OR({a},{b})',
+    'NOT({a})', 'ROUND({a},1)', 'LEN({a})', 'LEFT({a},2)', 'ABS({a})',
+    'MOD({a},3)', 'INT({a})', 'SQRT({a})', 'UPPER({a})', 'MID({a},1,2)',
+    'ISBLANK({a})', 'ISNUMBER({a})', 'ISTEXT({a})', 'CHOOSE({a},{b},{c})',
+    'YEAR({a})', 'DATE(2020,{a},{b})', 'CONCAT({a},{b})', 'EXACT({a},{b})',
+    'TRIM({a})', 'SIGN({a})', 'POWER({a},2)', 'ISERROR({a}/{b})',
+    'IF(ISERROR({a}/{b}),{c},{a}/{b})', 'MAX({a},{b})', 'MIN({a},{b},{c})',
+    'SUM({a},{b},{c})', 'NOSUCHFN({a})', '1/0+{a}', '#N/A', '{a}+"x"',
+]
+T_RANGE = [
+    'SUM({R})', 'AVERAGE({R})', 'MIN({R})', 'MAX({R})', 'COUNT({R})',
+    'COUNTA({R})', 'SUM({R},{a})', 'SUM({R})+{a}', 'SUM({R})*2',
+    'COUNTIF({R},">1")', 'MAX({R})-MIN({R})', 'VLOOKUP({a},{R},1,FALSE)',
+    'MATCH({a},{R},0)', 'SUMPRODUCT({R},{R})', 'IF(SUM({R})>{a},{a},{b})',
+    'COUNT({R})+COUNTA({R})', 'AVERAGE({R})+{a}',
+]
+
+
+def gen_world(rng, n_inputs=None, n_formulas=None, sheets=None, names=True,
+              stale=True, userfuncs=False, extremes=False, max_depth=5,
+              range_names=False):
+    """Acyclic model: level-0 constants, then formulas over lower cells.
+
+    Returns a JSON-able world:
+      sheets, cells {addr: enc(value)|'=formula'}, deps {addr: [addr]},
+      level {addr: int}, names {name: addr}, stale {addr: enc(value)},
+      ranges_used {addr: [range address]}, range_names {name: range}
+    """
+    nsheets = sheets if sheets is not None else rng.choice([1, 1, 2, 2, 3])
+    sheet_list = SHEETS[:nsheets]
+    W = {s: rng.choice([1, 2, 2, 3, 4]) for s in sheet_list}
+    count = {s: 0 for s in sheet_list}
+    cells, deps, level, order = {}, {}, {}, []
+    where = {}                      # addr -> (sheet, local index)
+    qualify_all = nsheets > 1 and rng.random() < 0.3
+
+    reserved = set()                # blank positions inside ranges
+
+    def place(sheet):
+        while True:
+            i = count[sheet]
+            count[sheet] += 1
+            a = addr(sheet, i % W[sheet], i // W[sheet])
+            if a not in reserved:
+                break
+        where[a] = (sheet, i)
+        order.append(a)
+        return a
+
+    def const():
+        r = rng.random()
+        if r < 0.50:
+            return rng.choice(NUMS)
+        if r < 0.56 and extremes:
+            return rng.choice(EXTREME)
+        if r < 0.72:
+            return rng.choice(TEXTS)
+        if r < 0.80:
+            return rng.choice([True, False])
+        if r < 0.85:
+            return ''
+        if r < 0.90:
+            return None
+        if r < 0.95:
+            return rng.choice(DATES)
+        return rng.randint(-1000, 1000)
+
+    ni = n_inputs if n_inputs is not None else rng.randint(2, 6)
+    nf = n_formulas if n_formulas is not None else rng.randint(1, 8)
+    for _ in range(ni):
+        a = place(rng.choice(sheet_list))
+        cells[a] = enc(const())
+        level[a] = 0
+        deps[a] = []
+
+    name_pool = ['rate', 'total_x', 'nm_a', 'Input1', 'k_2', 'tax']
+    rng.shuffle(name_pool)
+    wnames = {}
+    if names and rng.random() < 0.6:
+        for _ in range(rng.randint(1, 3)):
+            wnames[name_pool.pop()] = rng.choice(order)
+
+    def ref(frm_sheet, a):
+        s, c = a.split('!')
+        if s == frm_sheet == 'Sheet1' and not qualify_all:
+            return c
+        return a
+
+    ranges_used = {}
+    for _ in range(nf):
+        sheet = rng.choice(sheet_list)
+        cands = [a for a in order if level[a] < max_depth]
+        # bias to recent cells so that chains get deep
+        def pick():
+            if rng.random() < 0.55:
+                return rng.choice(cands[-4:])
+            return rng.choice(cands)
+        a_, b_, c_ = pick(), pick(), pick()
+        used = []
+        use_range = rng.random() < 0.4
+        rng_ref = None
+        if use_range:
+            # rectangle on some sheet covering existing cells (sometimes one
+            # position beyond -> blank placeholder created by build_ranges)
+            s = rng.choice(sheet_list)
+            if count[s] > 0:
+                w = W[s]
+                rows = (count[s] + w - 1) // w
+                r1 = rng.randrange(rows)
+                r2 = min(rows - 1 + (1 if rng.random() < 0.15 else 0),
+                         r1 + rng.randint(0, 3))
+                c1 = rng.randrange(w)
+                c2 = rng.randint(c1, w - 1)
+                members = []
+                for r in range(r1, r2 + 1):
+                    for c in range(c1, c2 + 1):
+                        m = addr(s, c, r)
+                        members.append(m)
+                if all(m not in level or level[m] < max_depth
+                       for m in members):
+                    a1 = addr(s, c1, r1).split('!')[1]
+                    a2 = addr(s, c2, r2).split('!')[1]
+                    rr = f'{a1}:{a2}'
+                    if not (s == sheet == 'Sheet1' and not qualify_all):
+                        rr = f'{s}!{rr}'
+                    rng_ref = (rr, members, f'{s}!{a1}:{a2}')
+                    reserved.update(m for m in members if m not in cells)
+        tpl = rng.choice(T_RANGE if rng_ref else T_SCALAR)
+        if userfuncs and rng.random() < 0.15:
+            tpl = 'FLAKY(' + tpl + ')'
+        elif userfuncs and rng.random() < 0.05:
+            tpl = 'SPY(' + tpl + ')'
+        fa = place(sheet)
+        sub = {}
+        for key, val in (('a', a_), ('b', b_), ('c', c_)):
+            if '{' + key + '}' in tpl:
+                nm = [n for n, t in wnames.items() if t == val]
+                if nm and rng.random() < 0.5:
+                    sub[key] = nm[0]
+                else:
+                    sub[key] = ref(sheet, val)
+                used.append(val)
+        if rng_ref:
+            sub['R'] = rng_ref[0]
+            used.extend(rng_ref[1])
+            ranges_used[fa] = [rng_ref[2]]
+        cells[fa] = '=' + tpl.format(**sub)
+        dl = [u for u in dict.fromkeys(used)]
+        deps[fa] = dl
+        level[fa] = 1 + max([level.get(u, 0) for u in dl] or [0])
+        if names and name_pool and rng.random() < 0.12:
+            wnames[name_pool.pop()] = fa
+
+    wstale = {}
+    if stale and rng.random() < 0.5:
+        for a in order:
+            if level[a] > 0 and rng.random() < 0.5:
+                wstale[a] = enc(rng.choice(
+                    [999, -1, 'stale', 0, True, 3.25, None]))
+    rnames = {}
+    if range_names and rng.random() < 0.5:
+        s = rng.choice(sheet_list)
+        if count[s] >= 2:
+            w = W[s]
+            rows = (count[s] + w - 1) // w
+            r1 = rng.randrange(rows)
+            r2 = min(rows - 1, r1 + rng.randint(0, 2))
+            c1 = rng.randrange(w)
+            c2 = rng.randint(c1, w - 1)
+            a1 = addr(s, c1, r1).split('!')[1]
+            a2 = addr(s, c2, r2).split('!')[1]
+            members = [addr(s, c, r) for r in range(r1, r2 + 1)
+                       for c in range(c1, c2 + 1)]
+            if a1 != a2 and all(m in cells for m in members):
+                rnames['rng_' + rng.choice('abc')] = f'{s}!{a1}:{a2}'
+    return {'sheets': sheet_list, 'cells': cells, 'deps': deps,
+            'level': level, 'names': wnames, 'stale': wstale,
+            'ranges_used': ranges_used, 'range_names': rnames,
+            'order': order}
+
+
+def world_model(world, cells=None, stale=False, build_code=True):
+    """Real Model for a world (optionally with other current cell contents)."""
+    src = cells if cells is not None else world['cells']
+    py = {a: dec(v) for a, v in src.items()}
+    names = {n: dollar(a) for n, a in world['names'].items()}
+    names.update({n: dollar(a)
+                  for n, a in world.get('range_names', {}).items()})
+    model = build_model(py, names, build_code=build_code)
+    if stale:
+        for a, v in world.get('stale', {}).items():
+            if a in model.cells:
+                model.set_cell_value(a, dec(v))
+    return model
